@@ -5,7 +5,7 @@ From Coq Require Import NArith List Bool.
 Import ListNotations.
 From Coq Require Import ZArith.
 From CXV Require Import Gen.TokTy Gen.ParserTables Parse.Balanced Gen.Blocks Parse.BlocksSM.
-From CXV Require Import Base.Regex Base.Cost Gen.LexRules Lex.PlyLoop Gen.StreamTables Stream.TokBuf Fmt.TokFmt PP.Filters.
+From CXV Require Import Base.Regex Base.Cost Gen.LexRules Lex.PlyLoop Gen.StreamTables Stream.TokBuf Fmt.TokFmt PP.Filters Misc.ReprModel Gen.Schema.
 Open Scope N_scope.
 
 Definition nlen {A} (l : list A) : N := N.of_nat (length l).
@@ -222,8 +222,54 @@ Definition run_filter (args : list N) : list N :=
   | [] => [99]
   end.
 
+(* nondefault_repr: prefix-encoded value -> prefix-encoded expression *)
+Fixpoint dec_val (fuel : nat) (l : list N) : val * list N :=
+  match fuel with
+  | O => (Atom 0, [])
+  | S f =>
+      match l with
+      | 0 :: a :: r => (Atom a, r)
+      | 1 :: n :: r =>
+          let '(items, r') := (fix go (k : nat) (r : list N) : list val * list N :=
+                                 match k with O => ([], r) | S k' => let '(v, r1) := dec_val f r in let '(vs, r2) := go k' r1 in (v :: vs, r2) end)
+                                (N.to_nat n) r in (Lst items, r')
+      | 2 :: n :: r =>
+          let '(items, r') := (fix go (k : nat) (r : list N) : list (N * val) * list N :=
+                                 match k with
+                                 | O => ([], r)
+                                 | S k' => match r with
+                                           | key :: r0 => let '(v, r1) := dec_val f r0 in let '(vs, r2) := go k' r1 in ((key, v) :: vs, r2)
+                                           | [] => ([], [])
+                                           end
+                                 end) (N.to_nat n) r in (Dct items, r')
+      | 3 :: c :: n :: r =>
+          let '(items, r') := (fix go (k : nat) (r : list N) : list val * list N :=
+                                 match k with O => ([], r) | S k' => let '(v, r1) := dec_val f r in let '(vs, r2) := go k' r1 in (v :: vs, r2) end)
+                                (N.to_nat n) r in (Obj c items, r')
+      | _ => (Atom 0, [])
+      end
+  end.
+
+Fixpoint enc_expr (fuel : nat) (e : expr) : list N :=
+  match fuel with
+  | O => []
+  | S f =>
+      match e with
+      | EAtom a => [0; a]
+      | ELst l => 1 :: nlen l :: flat_map (enc_expr f) l
+      | EDct l => 2 :: nlen l :: flat_map (fun kv => fst kv :: enc_expr f (snd kv)) l
+      | ECall c kw => 3 :: c :: nlen kw :: flat_map (fun ie => N.of_nat (fst ie) :: enc_expr f (snd ie)) kw
+      end
+  end.
+
+Definition run_nrepr (args : list N) : list N :=
+  let fuel := length args in
+  let '(v, _) := dec_val fuel args in
+  enc_expr fuel (nrepr schema fuel v).
+
 Definition run_case (cmd : N) (args : list N) : list N :=
   match cmd, args with
+  | 60, _ => run_nrepr args
   | 50, _ => run_filter args
   | 40, _ => run_tokfmt args
   | 21, _ => run_lexcost args
